@@ -1651,4 +1651,37 @@ example : Stack.runOps
     [.frame (.slice (some 1) none (some 2)), .tuple [.slice none none none, .slice none (some (-1)) none, .slice (some 1) (some 4) none],
      .time (.rel 100000000) .none none] = some (.ok ⟨3, 7, 2, ⟨1, 4, 0, 3⟩⟩) := by decide
 
+
+/-- Successive indexing operations compose like their array counterparts: a program `stack[i₁][i₂]…[iₙ]` of index
+    expressions `[a:b:c, ra:rb, ca:cb]` (positive steps or `None`, any bounds) that does not raise shows exactly
+    `get_image()[i₁][i₂]…[iₙ]`, for any number of steps, starting from any stack the code builds. -/
+theorem program_image_refines {α} (H W : Nat) (pages : List Page) (raw : Int → List (List α))
+    (hraw : ∀ p, (raw p).length = H ∧ ∀ row ∈ raw p, row.length = W) :
+    ∀ (prog : List Idx) (s s' : Stack), (∀ i ∈ prog, 0 < i.c.getD 1) → s.Good H W pages →
+      Stack.runOps pages s (prog.map Idx.toOp) = some (.ok s') →
+      s'.image raw = prog.foldl Idx.np (s.image raw) ∧ s'.Good H W pages
+  | [], s, s', _, hg, h => by
+    simp only [List.map_nil, Stack.runOps, Option.some.injEq, Except.ok.injEq] at h
+    rw [← h]; exact ⟨rfl, hg⟩
+  | i :: rest, s, s', hc, hg, h => by
+    simp only [List.map_cons] at h
+    unfold Stack.runOps at h
+    simp only [Stack.applyOp, Idx.toOp] at h
+    have href := getitem_image_refines s hg.1 raw H W hraw hg.2.1 i.a i.b i.c i.ra i.rb i.ca i.cb (hc i (by simp))
+    cases ht : s.getitemTuple [.slice i.a i.b i.c, .slice i.ra i.rb none, .slice i.ca i.cb none] with
+    | error e => rw [ht] at h; simp only at h; cases h
+    | ok t =>
+      rw [ht] at h href
+      simp only at h href
+      have hgt : t.Good H W pages := (good_preserved s t H W pages hg).2.2.1 _ ht
+      have ih := program_image_refines H W pages raw hraw rest t s' (fun j hj => hc j (by simp [hj])) hgt h
+      refine ⟨?_, ih.2⟩
+      rw [ih.1, List.foldl_cons, href.1]
+      rfl
+
+/-- Non-vacuity: `stack[1::2, :-1][:, :, 1:4]` of six 4 × 5 pages succeeds. -/
+example : Stack.runOps [⟨1, 2, 2⟩, ⟨2, 3, 3⟩, ⟨3, 4, 4⟩, ⟨4, 5, 5⟩, ⟨5, 6, 6⟩, ⟨6, 7, 7⟩] ⟨0, 6, 1, ⟨0, 5, 0, 4⟩⟩
+    ([⟨some 1, none, some 2, none, some (-1), none, none⟩, ⟨none, none, none, none, none, some 1, some 4⟩].map Idx.toOp) =
+      some (.ok ⟨1, 7, 2, ⟨1, 4, 0, 3⟩⟩) := by decide
+
 end Verif.C07
